@@ -1,13 +1,104 @@
 /-
   Decidable invariants of the closed loop (`RV.ClosedLoop`): evaluated by the driver on every state the
-  *implementation* reaches in the closed-loop walks, and proved for every reachable state of the model.
+  *implementation* reaches in the closed-loop walks, and proved for every reachable state of the model
+  (`RV.Props.ClosedLoop`).
 -/
 import RV.Model.ClosedLoop
 import RV.Oracle.Cluster
 namespace RV.Oracle.ClosedLoop
-open RV.Arith RV.Traffic RV.ClosedLoop
+open RV.Arith RV.Traffic RV.RolloutSM RV.ClosedLoop RV.Oracle.Batch
 
-def stateOracles (_s : CS) : List (String × Bool) := []
+/-- the plan entries as the BatchRelease carries them -/
+def planOf (ro : Rollout) : List IntOrPct := ro.steps.map (·.replicas)
+
+/-- **C01.5** — partition `k` of a CloneSet of size `R` exposes at most what plan entry `e` allows; when the plan has a
+    string-typed (percent) entry the documented slack of strictly less than 1 % of the workload applies -/
+def within (R : Int) (plan : List IntOrPct) (e k : IntOrPct) : Bool :=
+  decide (exposure k R ≤ calcBatchReplicas R e) ||
+  (plan.any isStr && decide (100 * (exposure k R - calcBatchReplicas R e) < max R 1))
+
+/-- the user-owned configuration of the rollouts the closed-loop theorems speak about: a live, enabled, un-paused
+    canary rollout in partition style over a CloneSet, with a non-empty plan, carrying the controller's finalizer -/
+def roOK (s : CS) : Bool :=
+  !s.gone && !s.ro.deleting && s.ro.hasFinalizer && !s.ro.disabled && !s.ro.paused && s.ro.style == .canary &&
+  s.ro.realPartition && !s.ro.steps.isEmpty
+
+/-- facts about the CloneSet that the simulated workload controller and the partition writes maintain -/
+def wlOK (w : CWl) : Bool :=
+  w.statusReplicas == w.replicas && decide (0 ≤ w.replicas) && decide (w.updated ≤ w.replicas) &&
+  (w.updateRevision != w.currentRevision || w.updated == w.replicas) &&
+  (match w.partition with | some k => decide (0 ≤ scaledV k w.replicas true) | none => true)
+
+/-- the workload is held back exactly as the admission webhook left it: nothing exposed -/
+def held (w : CWl) : Bool := w.partition == some (.pct 100)
+
+/-- **C09** — what every existing BatchRelease satisfies: the executor never indexes outside the plan -/
+def brOK (b : CBr) : Bool :=
+  !b.batches.isEmpty && decide (0 ≤ b.st.currentBatch) &&
+  (match b.partition with | some p => decide (0 ≤ p) | none => true) && !b.rollbackAnno && b.st.noNeedUpdate.isNone
+
+/-- **C01 / C11 (the three cursors)** — while the rollout is rolling: the BatchRelease carries the rollout's plan, its
+    partition is at most the rollout's step (`curIdx − 1`; exactly that once the release manager has written the
+    step), the executor's batch is at most the partition, and the BatchRelease is neither being finalised nor deleted -/
+def linkOK (ro : Rollout) (s : Sub) (b : CBr) : Bool :=
+  b.batches == planOf ro &&
+  (match b.partition with
+   | some p => decide (0 ≤ p ∧ p ≤ s.curIdx - 1 ∧ b.st.currentBatch ≤ p)
+   | none => false) &&
+  !b.deleting && (b.st.phase == .empty || b.st.phase == .preparing || b.st.phase == .progressing)
+
+/-- **C09** — the sub-status of a rolling rollout never leaves the plan and never carries a jump request the user
+    did not make -/
+def subOK (ro : Rollout) (s : Sub) (w : CWl) : Bool :=
+  let n : Int := ro.steps.length
+  decide (1 ≤ s.curIdx ∧ s.curIdx ≤ n) && decide (s.nextIdx = nextBatchIndex n s.curIdx) && s.lastUpdate != .none &&
+  s.hash == .same && s.canaryRev == w.updateRevision
+
+/-- the invariant of a forward rollout (labels ro / br / env / approve / tick / crash, and a new release while idle) -/
+def fwdInv (s : CS) : Bool :=
+  roOK s &&
+  (match s.wl with
+   | none => false
+   | some w =>
+     wlOK w && (match s.br with | some b => brOK b | none => true) &&
+     (match s.ro.phase, s.ro.reason with
+      | .healthy, _ => s.br.isNone && (!w.inProgressAnno || held w)
+      | .progressing, .initializing => s.br.isNone && held w
+      | .progressing, .inRolling =>
+        (match s.ro.sub with
+         | none => false
+         | some sub =>
+           subOK s.ro sub w &&
+           (match s.br with | some b => linkOK s.ro sub b | none => true) &&
+           (match w.partition, (planOf s.ro)[(sub.curIdx - 1).toNat]? with
+            | some k, some e => within w.replicas (planOf s.ro) e k
+            | _, _ => false))
+      | .progressing, .finalising =>
+        (match s.ro.sub with
+         | none => false
+         | some sub =>
+           RV.Oracle.Cluster.cursorOk (taskList s.ro.style .success) sub.finStep &&
+           RV.Oracle.Cluster.finInv .success s.ro sub.finStep (s.br.map roBr) s.net)
+      | .progressing, .completed => s.br.isNone && !w.inProgressAnno
+      | _, _ => false))
+
+/-- the CloneSet knobs the rollout world does not carry -/
+def wlx (w : CWl) : RV.Oracle.Cluster.WlX :=
+  { partition := w.partition, paused := w.paused, controlled := w.owner != .none, updated := w.updated }
+
+/-- **C01.5** on the joint state, as the snapshots of suite `cluster` judge it -/
+def exposureOK (s : CS) : Bool :=
+  s.gone || (match s.wl with | some w => RV.Oracle.Cluster.exposureWithinStep (roWorld s) (wlx w) | none => true)
+
+/-- **C09** — no reconciler panics from this state -/
+def totalOK (s : CS) : Bool := (step s .ro).isSome && (step s .br).isSome
+
+def stateOracles (s : CS) (fwd : Bool) : List (String × Bool) :=
+  let inv := !fwd || fwdInv s
+  [("C01.loop_inv", inv), ("C02.loop_inv", inv), ("C06.loop_inv", inv), ("C07.loop_inv", inv), ("C09.loop_inv", inv),
+   ("C09.loop_total", totalOK s), ("C06.loop_total", totalOK s),
+   ("C01.loop_exposure", exposureOK s), ("C06.loop_exposure", exposureOK s)]
+
 def stepOracles (_pre : CS) (_lab : String) (_post : CS) : List (String × Bool) := []
 
 end RV.Oracle.ClosedLoop
